@@ -421,5 +421,6 @@ int main()
 		out(os.str());
 	}
 	det_end();
-	return 0;
+	std::fflush(stdout);
+	_exit(0);	// no static destruction: threads of the threaded scenarios and the library's globals (FastFlow allocator) are not torn down
 }
